@@ -11,7 +11,7 @@ EXPLANATION = ('Effect analysis of the whole library on typed-pointer LLVM IR (m
                'static reachable, features copied by value, SHARED classes hold no pointer to PER-CALL objects, const-cast inventory.  '
                'This quantifies over all API histories because a history can only influence a later call through memory that outlives '
                'the call.  Equality of two dumps is NOT decided (runtime).')
-FLOORS = {'LAZYFILL': 8, 'DEEPCONST': 3, 'NOGLOBAL': 1, 'PARTITION': 20, 'COPYFEATS': 3, 'CASTS': 5}
+FLOORS = {'LAZYFILL': 9, 'DEEPCONST': 3, 'NOGLOBAL': 1, 'PARTITION': 20, 'COPYFEATS': 3, 'CASTS': 5}
 
 
 def run(run):
@@ -21,6 +21,7 @@ def run(run):
     reach, cuts, lazyfn, sw = ER.deepconst(run, E, 'DEEPCONST', entries, lazy_enabled=True)
     ER.noglobal(run, E, 'NOGLOBAL', reach)
     ER.lazyfill(run, E.fx, 'LAZYFILL')
+    ER.advinit(run, E.fx, 'LAZYFILL')
     c08rules.partition(run, E.fx, 'PARTITION')
     c08rules.copyfeats(run, E, 'COPYFEATS')
     c08rules.casts(run, E.fx, 'CASTS', reach, E)
